@@ -257,8 +257,8 @@ class RealRun:
                         v = yield st_[1] / 512, [run.mk(em, fuel - 1, now) for em in st_[2]]
                         run.log.append(("R", self.now.nanoseconds, pid, tag, jsonable(v)))
                     elif op == "wait":
-                        if not nfut or (st_[1] % nfut) in run.waited:
-                            continue
+                        if not nfut or ((st_[1] % nfut) in run.waited and not run.futs[st_[1] % nfut].is_resolved):
+                            continue        # one parked process per future; a resolved future may be yielded again
                         run.waited.add(st_[1] % nfut)
                         v = yield run.futs[st_[1] % nfut]
                         run.log.append(("R", self.now.nanoseconds, pid, tag, jsonable(v)))
